@@ -1794,7 +1794,7 @@ pub fn rust_registry(ex: &Extracted) -> String {
     }
     o.push_str("        _ => false,\n    }\n}\n\n");
     // the value side: take a value of a derived struct apart from outside the crate
-    o.push_str("pub trait ValueSide {\n    /// replaces the catch-all; None: the model has none; Some(false): it is not a public field\n    fn set_other(&mut self, d: Dictionary) -> Option<bool>;\n    /// the catch-all (None: none, or not public)\n    fn other_dict(&self) -> Option<Dictionary>;\n    /// (field, key, Debug text) of every public keyed field\n    fn fields_debug(&self) -> Vec<(&'static str, &'static str, String)>;\n    /// keyed fields that are not public (not compared)\n    fn hidden_fields() -> &'static [&'static str];\n    /// Debug text of the whole value (None: the type has no Debug)\n    fn whole_debug(&self) -> Option<String>;\n}\n\n");
+    o.push_str("pub trait ValueSide {\n    /// replaces the catch-all; None: the model has none; Some(false): it is not a public field\n    fn set_other(&mut self, d: Dictionary) -> Option<bool>;\n    /// the catch-all (None: none, or not public)\n    fn other_dict(&self) -> Option<Dictionary>;\n    /// (field, key, Debug text) of every public keyed field\n    fn fields_debug(&self) -> Vec<(&'static str, &'static str, String)>;\n    /// keyed fields that are not public (not compared)\n    fn hidden_fields() -> &'static [&'static str];\n    /// None: no catch-all field; Some(public?)\n    fn catch_all() -> Option<bool>;\n    /// Debug text of the whole value (None: the type has no Debug)\n    fn whole_debug(&self) -> Option<String>;\n}\n\n");
     o.push_str("pub trait ValueVisitor {\n    fn value_side<T: pdf::object::Object + pdf::object::ObjectWrite + ValueSide + 'static>(&mut self, name: &str);\n}\n\n");
     let mut vs_models: Vec<(String, String)> = vec![];
     for (n, ty, rd, wr) in &typed {
@@ -1822,11 +1822,11 @@ pub fn rust_registry(ex: &Extracted) -> String {
                 hidden.push(format!("{:?}", f.ident));
             }
         }
-        o.push_str(&format!("impl ValueSide for {} {{\n    fn set_other(&mut self, d: Dictionary) -> Option<bool> {{ {} }}\n    fn other_dict(&self) -> Option<Dictionary> {{ {} }}\n    fn fields_debug(&self) -> Vec<(&'static str, &'static str, String)> {{\n        vec![\n{}        ]\n    }}\n    fn hidden_fields() -> &'static [&'static str] {{ &[{}] }}\n    fn whole_debug(&self) -> Option<String> {{ {} }}\n}}\n\n", ty, clear, other_get, dbg, hidden.join(", "), if m.derives_debug { "Some(format!(\"{:?}\", self))" } else { "None" }));
+        o.push_str(&format!("impl ValueSide for {} {{\n    fn set_other(&mut self, d: Dictionary) -> Option<bool> {{ {} }}\n    fn other_dict(&self) -> Option<Dictionary> {{ {} }}\n    fn fields_debug(&self) -> Vec<(&'static str, &'static str, String)> {{\n        vec![\n{}        ]\n    }}\n    fn hidden_fields() -> &'static [&'static str] {{ &[{}] }}\n    fn catch_all() -> Option<bool> {{ {} }}\n    fn whole_debug(&self) -> Option<String> {{ {} }}\n}}\n\n", ty, clear, other_get, dbg, hidden.join(", "), match other { None => "None", Some(f) if f.public => "Some(true)", Some(_) => "Some(false)" }, if m.derives_debug { "Some(format!(\"{:?}\", self))" } else { "None" }));
         vs_models.push((n.clone(), ty.clone()));
     }
     // dictionaries of typed streams
-    o.push_str("impl ValueSide for () {\n    fn set_other(&mut self, _d: Dictionary) -> Option<bool> { None }\n    fn other_dict(&self) -> Option<Dictionary> { None }\n    fn fields_debug(&self) -> Vec<(&'static str, &'static str, String)> { vec![] }\n    fn hidden_fields() -> &'static [&'static str] { &[] }\n    fn whole_debug(&self) -> Option<String> { Some(\"()\".into()) }\n}\n\n");
+    o.push_str("impl ValueSide for () {\n    fn set_other(&mut self, _d: Dictionary) -> Option<bool> { None }\n    fn other_dict(&self) -> Option<Dictionary> { None }\n    fn fields_debug(&self) -> Vec<(&'static str, &'static str, String)> { vec![] }\n    fn hidden_fields() -> &'static [&'static str] { &[] }\n    fn catch_all() -> Option<bool> { None }\n    fn whole_debug(&self) -> Option<String> { Some(\"()\".into()) }\n}\n\n");
     o.push_str("pub trait StreamInfoVisitor {\n    fn stream_info<I: pdf::object::Object + pdf::object::ObjectWrite + ValueSide + 'static>(&mut self, name: &str);\n}\n\n");
     o.push_str("pub fn visit_stream_info(name: &str, v: &mut impl StreamInfoVisitor) -> bool {\n    match name {\n        \"()\" => { v.stream_info::<()>(name); true }\n");
     let mut stream_infos: Vec<(String, bool)> = vec![("()".into(), true)];
